@@ -14,3 +14,33 @@ package cisco
 //vc:  ensures[C06] @bannerMissingRecorded markerMissing ==> len(s.errUnmanaged) > 0
 //vc:  ensures[C06] @bannerCheckMeaning markerMissing == (cfg.CheckBanner != nil && !reMatch(cfg.CheckBanner, lines))
 //vc:  ensures[C09] @unmanagedErrorNotNil isnil(old(s.errUnmanaged)) && !isnil(s.errUnmanaged) ==> len(s.errUnmanaged) > 0 && s.errUnmanaged[0] != nil
+
+// ---- C16: every range over a map must be justified as order independent ----
+//vc:maprange[C16] (*Config).MergeSpoc 1 "for prefix := range b.lookup" accumulate creates a missing map entry keyed by the iteration key; entries are independent
+//vc:maprange[C16] (*Config).MergeSpoc 2 "for prefix, bMap := range b.lookup" first-match NOT PROVED: mergeCmds merges anchors of different prefixes; anchors of different prefixes own disjoint objects unless two anchors share a referenced object (then isReferenced/Abort order could differ); bounded runs only
+//vc:maprange[C16] (*Config).MergeSpoc 3 "for name, bl := range bMap" first-match NOT PROVED: same as loop 2 for anchors of one prefix; bounded runs only
+//vc:maprange[C16] (*Config).MergeSpoc 4 "for c, used := range isReferenced" accumulate appends to warnings which is sorted by sort.Strings before printing
+//vc:maprange[C16] (*State).deleteUnused 1 "for prefix, m := range s.a.lookup" accumulate fills the maps toDelete (keyed by prefix+name of the iteration) and stillReferenced (set insertion, idempotent); nothing is emitted here, emission later iterates sorted keys
+//vc:maprange[C16] (*State).deleteUnused 2 "for name, l := range m" accumulate see loop 1
+//vc:maprange[C16] (*State).deleteUnused 3 "for p := range toDelete" accumulate deletes the iteration key itself where stillReferenced says so; deletions of different keys commute
+//vc:maprange[C16] (*State).deleteUnused 4 "for _, l := range toDelete" accumulate set insertion into isReferenced (idempotent, commutative)
+//vc:maprange[C16] (*State).diffASAACLs$2 1 "for cmd, p := range pos" accumulate each entry is updated from its own old value only (pos[cmd] = p + 1)
+//vc:maprange[C16] (*State).diffASAACLs$3 1 "for cmd, p := range pos" accumulate each entry is updated from its own old value only (pos[cmd] = p - 1)
+//vc:maprange[C16] (*State).diffConfig 1 "for _, l := range comb[prefix]" first-match static data: all command types of one prefix share the anchor flag (cmdInfo header), so any entry gives the same value
+//vc:maprange[C16] (*State).diffSomeAnchors$1 1 "for name, l := range m" accumulate result slice is sorted by sort.Strings before it is returned
+//vc:maprange[C16] (*State).generateNamesForTransfer 1 "for prefix, m := range s.b.lookup" accumulate setName writes only c.name of the visited command, computed from its own name and the unchanged device lookup
+//vc:maprange[C16] (*State).generateNamesForTransfer 2 "for _, bl := range m" accumulate see loop 1
+//vc:maprange[C16] (*State).ignoreCryptoGDOI 1 "for name := range rm" accumulate deletes map entries keyed by the iteration key
+//vc:maprange[C16] (*parser).addDefaults 1 "for k, vl := range defaultObjects" accumulate adds default objects under their own (prefix,name) key if absent
+//vc:maprange[C16] (*parser).checkReferences 1 "for _, m := range lookup" first-match early return only with an error; which dangling reference is named in the message depends on the order, exit status does not (error text is not an observable of C16); addDefaultObject inserts under the referenced key only
+//vc:maprange[C16] (*parser).checkReferences 2 "for _, cmdList := range m" first-match see loop 1
+//vc:maprange[C16] matchCryptoMap$3 1 "for seq, l := range seqMap" accumulate (loop removed by fix 1428671: iteration is over sorted keys now)
+//vc:maprange[C16] postprocessParsed 1 "access-list" accumulate rewrites each visited command from its own text
+//vc:maprange[C16] postprocessParsed 2 "ip access-list extended" accumulate rewrites each visited command from its own text
+//vc:maprange[C16] postprocessParsed 3 "aaa-server" accumulate per name: rewrites the commands of that name and stores them under the same key; Abort only changes the error text
+//vc:maprange[C16] postprocessParsed 4 "crypto ca certificate map" accumulate rewrites each visited sub command from its own text
+//vc:maprange[C16] postprocessParsed 5 "tunnel-group" accumulate sets flags of the visited commands only
+//vc:maprange[C16] postprocessParsed$1 1 "for _, l := range lookup[prefix]" accumulate rewrites each visited command from its own text
+//vc:maprange[C16] postprocessParsed$2 1 "for _, l := range lookup[prefix]" accumulate rewrites each visited command from its own text
+//vc:maprange[C16] postprocessParsed$3 1 "for _, l := range lookup[prefix]" accumulate rewrites each visited command from its own text
+//vc:maprange[C16] sortGroups 1 "object-group" accumulate sorts the sub commands of the visited group only
